@@ -1,0 +1,7 @@
+//go:build !verif
+
+package wire
+
+// verifPoint marks a schedule point used by the verification harness. It is a
+// no-op unless the package is built with the verif build tag.
+func verifPoint(string) {}
